@@ -52,6 +52,7 @@ class C04(Property):
     ID = "C04"
     SESSIONS = ["s0", "s1"]
     RUNS = {"quick": (4000, 4000), "thorough": (80000, 80000)}
+    MUST_REACH = {"probes": ["nondefault_index", "index_gaps_after_filter", "foreign_stopgap_file", "foreign_column_order", "update_coord", "new_shifts_between_writes", "recovery_after_fault"], "faults": ["crash", "enospc", "eio_read", "short_read", "eintr", "open_fail"]}
 
     def config(self, rng, tier, faulty):
         cfg = {
